@@ -91,16 +91,89 @@ def write_coqproject():
     return False
 
 
-def make(targets, timeout=1800, jobs=16):
-    """Build .vo targets (paths relative to coq/). Full .vo builds only. Returns (ok, log)."""
-    with CoqLock():
-        changed = write_coqproject()
-        if changed or not os.path.exists(os.path.join(COQ, "Makefile")):
-            p = sh(["coq_makefile", "-f", "_CoqProject", "-o", "Makefile"], cwd=COQ, timeout=120)
+_DEP_CACHE = {}
+
+
+def _deps(vrel):
+    """direct .v dependencies (inside theories/) of a .v file, via coqdep"""
+    st = os.stat(os.path.join(COQ, vrel)).st_mtime
+    if vrel in _DEP_CACHE and _DEP_CACHE[vrel][0] == st:
+        return _DEP_CACHE[vrel][1]
+    p = sh(["coqdep", "-Q", "theories", "VP", vrel], cwd=COQ, timeout=120)
+    deps = []
+    for line in p.stdout.split("\n"):
+        if ":" in line and line.split(":")[0].split()[0].endswith(".vo"):
+            for tok in line.split(":", 1)[1].split():
+                if tok.endswith(".vo") and tok.startswith("theories/"):
+                    d = tok[:-1]
+                    if d != vrel:
+                        deps.append(d)
+            break
+    _DEP_CACHE[vrel] = (st, deps)
+    return deps
+
+
+class _FileLock:
+    def __init__(self, name):
+        os.makedirs(os.path.join(CACHE, "locks"), exist_ok=True)
+        self.path = os.path.join(CACHE, "locks", name.replace("/", "__") + ".lock")
+
+    def __enter__(self):
+        self.f = open(self.path, "w")
+        fcntl.flock(self.f, fcntl.LOCK_EX)
+
+    def __exit__(self, *a):
+        fcntl.flock(self.f, fcntl.LOCK_UN)
+        self.f.close()
+
+
+COQ_FLAGS = ["-Q", "theories", "VP", "-w", "-notation-overridden,-deprecated-hint-without-locality,-deprecated-instance-without-locality"]
+
+
+def _build_one(vrel, timeout, logs, done):
+    """Build theories/X/Y.v -> .vo (full coqc, never -vos) after its dependencies. Returns mtime of .vo or None."""
+    if vrel in done:
+        return done[vrel]
+    newest_dep = 0.0
+    for d in _deps(vrel):
+        m = _build_one(d, timeout, logs, done)
+        if m is None:
+            done[vrel] = None
+            return None
+        newest_dep = max(newest_dep, m)
+    v = os.path.join(COQ, vrel)
+    vo = v + "o"
+    with _FileLock(vrel):
+        stale = (not os.path.exists(vo)) or os.stat(vo).st_mtime < os.stat(v).st_mtime or os.stat(vo).st_mtime < newest_dep
+        if stale:
+            p = sh(["timeout", str(timeout), "coqc"] + COQ_FLAGS + [vrel], cwd=COQ, timeout=timeout + 30)
+            logs.append("COQC %s%s" % (vrel, "" if p.returncode == 0 else " FAILED (rc %s)" % p.returncode))
             if p.returncode != 0:
-                return False, p.stdout + p.stderr
-        p = sh(["timeout", str(timeout), "make", "-j%d" % jobs] + list(targets), cwd=COQ, timeout=timeout + 30)
-        return p.returncode == 0, p.stdout + p.stderr
+                logs.append(p.stdout[-3000:] + p.stderr[-3000:])
+                if os.path.exists(vo):
+                    os.remove(vo)
+                done[vrel] = None
+                return None
+    done[vrel] = os.stat(vo).st_mtime
+    return done[vrel]
+
+
+def make(targets, timeout=1800, jobs=16):
+    """Build .vo targets (paths relative to coq/, e.g. theories/Zdd/Props.vo) with their dependencies.
+    Full .vo builds only; per-file locks make concurrent checks safe. Returns (ok, log)."""
+    write_coqproject()
+    logs = []
+    done = {}
+    ok = True
+    if len(targets) > 4 and jobs > 1:
+        with concurrent.futures.ThreadPoolExecutor(max_workers=jobs) as ex:
+            res = list(ex.map(lambda t: _build_one(t[:-1] if t.endswith(".vo") else t, timeout, logs, {}), targets))
+        ok = all(r is not None for r in res)
+    else:
+        for t in targets:
+            if _build_one(t[:-1] if t.endswith(".vo") else t, timeout, logs, done) is None:
+                ok = False
+    return ok, "\n".join(logs)
 
 
 def audit(audit_file, allow_axioms=(), timeout=600):
